@@ -198,6 +198,8 @@ pub fn gen_srv_case(rng: &mut Rng, profile: Profile, prop: &'static str) -> SrvC
         _ => rng.range(8, 160),
     };
     let kill_pos = if profile == Profile::Kill { Some(rng.below(nsteps)) } else { None };
+    // the server process forks once somewhere in the history (the child keeps what it inherited)
+    let mut forks_left = if matches!(profile, Profile::Hostile | Profile::Routing | Profile::Capacity | Profile::Kill) && rng.chance(1, 10) { 1 } else { 0 };
     let mut gcs: Vec<GClient> = Vec::new();
     let mut cur_limit = limit.unwrap_or(51200);
     let push = |sim: &mut ServerSim, case: &mut SrvCase, s: SStep, st: &mut Stats| -> bool {
@@ -274,7 +276,8 @@ pub fn gen_srv_case(rng: &mut Rng, profile: Profile, prop: &'static str) -> SrvC
         };
         let w_drain = if profile == Profile::Capacity { 2 } else { 0 };
         let w_fault = if faults_enabled && !hostiles.is_empty() { 2 } else { 0 };
-        let weights = [w_poll, w_connect, w_send, w_recv, w_resp, w_respall, w_flush, w_hostile, w_setlimit, w_drain, w_fault];
+        let w_fork = if forks_left > 0 && sim.stream_fds() > 0 { 4 } else { 0 };
+        let weights = [w_poll, w_connect, w_send, w_recv, w_resp, w_respall, w_flush, w_hostile, w_setlimit, w_drain, w_fault, w_fork];
         if weights.iter().sum::<usize>() == 0 {
             break;
         }
@@ -382,7 +385,7 @@ pub fn gen_srv_case(rng: &mut Rng, profile: Profile, prop: &'static str) -> SrvC
                 };
                 let tag = sim.outstanding[k].0.clone();
                 let pad = if big_responses && rng.chance(1, 3) { rng.range(200, 3 * case.cap_s2c.min(70_000)) } else { rng.below(80) };
-                SStep::Respond { tag, code: *rng.pick(&[200u16, 200, 200, 404, 400, 500]), pad }
+                SStep::Respond { tag, code: *rng.pick(&[200u16, 200, 200, 404, 400, 500, 204]), pad }
             }
             5 => SStep::RespondAll { code: 200, pad: rng.below(60) },
             6 => SStep::Flush,
@@ -408,6 +411,10 @@ pub fn gen_srv_case(rng: &mut Rng, profile: Profile, prop: &'static str) -> SrvC
                 SStep::SetLimit(l)
             }
             9 => SStep::Drain,
+            11 => {
+                forks_left -= 1;
+                SStep::Fork
+            }
             _ => {
                 let c = *rng.pick(&hostiles);
                 if rng.chance(2, 3) {
@@ -690,9 +697,16 @@ impl Prop for C08 {
         true
     }
     fn gen(&self, rng: &mut Rng, _tier: Tier, _index: u64) -> J {
+        if rng.chance(1, 6_000) {
+            // one long-lived client, hundreds to tens of thousands of requests, late answers
+            return crate::flood::gen_flood(rng);
+        }
         gen_srv_case(rng, Profile::WellBehaved, "C08").to_json()
     }
     fn exec(&self, case: &J, st: &mut Stats) -> Result<RunOut, String> {
+        if crate::flood::is_flood(case) {
+            return crate::flood::exec_flood(case, "C08", st);
+        }
         let case = SrvCase::from_json(case)?;
         let out = exec_srv(&case, flags_for("C08", Profile::WellBehaved), st, true);
         // out of scope traces (a client stopped being well-behaved, e.g. after minimisation) give no verdict
@@ -710,6 +724,9 @@ impl Prop for C08 {
         })
     }
     fn shrink(&self, case: &J) -> Vec<J> {
+        if crate::flood::is_flood(case) {
+            return crate::flood::shrink_flood(case);
+        }
         shrink_json(case)
     }
 }
@@ -744,9 +761,16 @@ impl Prop for C09 {
         true
     }
     fn gen(&self, rng: &mut Rng, _tier: Tier, _index: u64) -> J {
+        if rng.chance(1, 6_000) {
+            // "however late the application answers": tens of thousands of unanswered requests
+            return crate::flood::gen_flood(rng);
+        }
         gen_srv_case(rng, Profile::Hostile, "C09").to_json()
     }
     fn exec(&self, case: &J, st: &mut Stats) -> Result<RunOut, String> {
+        if crate::flood::is_flood(case) {
+            return crate::flood::exec_flood(case, "C09", st);
+        }
         let case = SrvCase::from_json(case)?;
         let out = exec_srv(&case, flags_for("C09", Profile::Hostile), st, true);
         let p = &out.sim_probe;
@@ -758,6 +782,9 @@ impl Prop for C09 {
         })
     }
     fn shrink(&self, case: &J) -> Vec<J> {
+        if crate::flood::is_flood(case) {
+            return crate::flood::shrink_flood(case);
+        }
         shrink_json(case)
     }
 }
